@@ -39,6 +39,9 @@ pub fn alphabet(name: &str) -> Vec<f64> {
         "qties" => vec![0., 1., 2., 3.],
         "qdist" => vec![-4., 0., 1., 2.5, 3., 7.],
         "tri" => vec![-1., 0.1, 3.],
+        // well-conditioned data at very small / very large scale (scale invariance)
+        "tiny" => vec![1e-9, 2e-9, 3e-9, 7e-9, -7e-9, 1e-11],
+        "large" => vec![1e20, 2e20, 3e20, 7e20, -7e20, 1e18],
         "q07" => vec![-1., 0., 0.5, 2., 7.],
         "const1" => vec![2.5],
         "weights" => vec![0., 1e-6, 0.5, 1., 3., 1e6],
